@@ -116,6 +116,8 @@ def run(tier, seed, replay=None):
                     # before the restart and the set of live containers did not grow
                     if live and c not in hold and c in held_before and not demand_grew and c not in never_admitted and cc is not None and not cc.get('preserve_cpu') and not (sc['policy'] == 'balloons' and cfg.get('preserve') and cc['name'] in cfg['preserve']['matchExpressions'][0]['values']):
                         viol(sc, F('C11', 'sync-allocates-runtime-live', 'live-container-lost-allocation', 'container %s is %s at the runtime and held an allocation before, but holds none after Synchronize (no new live containers)' % (c, lc.get('state')), seq))
+                    if live and cc is None and c not in never_admitted:
+                        viol(sc, F('C11', 'sync-allocates-runtime-live', 'listed-live-container-not-cached', 'container %s is %s at the runtime (pod %s listed) but is not in the cache after Synchronize' % (c, lc.get('state'), lc.get('pod')), seq))
                     if not live and c in hold:
                         viol(sc, F('C11', 'sync-allocates-runtime-live', 'non-live-container-holds-allocation', 'container %s is %s at the runtime but holds an allocation after Synchronize' % (c, lc.get('state')), seq))
                 for c in hold - set(listed):
